@@ -22,7 +22,12 @@ def make_fxns(scn):
         k = jcalls[node]
         return ({v: [float(x) for x in scn["delay"][node - 1][v - 1][(k - 1) % K]] for v in nbrs},
                 float(scn["dur"][node - 1][(k - 1) % K]))
-    return trans_time, rec_time, joint
+
+    def joint_sparse(node, nbrs):
+        # "trans_delay_dict is a dict whose keys are those neighbors who receive a transmission"
+        d, r = joint(node, nbrs)
+        return {v: x for v, x in d.items() if x}, r
+    return trans_time, rec_time, joint, joint_sparse
 
 
 def log_from_full(sim, nodes):
@@ -57,9 +62,9 @@ def run_all(scn, reflog, EoN):
     tmin, tmax = float(scn["tmin"]) - sh, float(scn["tmax"]) - sh
     want = [[float(e[0]) - sh, e[1], e[2], e[3]] for e in reflog]
     kw = dict(initial_infecteds=list(I0), tmin=tmin, tmax=tmax)
-    for iface in ("separate", "joint"):
-        tt, rt, jt = make_fxns(scn)
-        fk = dict(trans_time_fxn=tt, rec_time_fxn=rt) if iface == "separate" else dict(trans_and_rec_time_fxn=jt)
+    for iface in ("separate", "joint", "joint-sparse"):
+        tt, rt, jt, js = make_fxns(scn)
+        fk = dict(trans_time_fxn=tt, rec_time_fxn=rt) if iface == "separate" else dict(trans_and_rec_time_fxn=jt if iface == "joint" else js)
         name = "fast_nonMarkov_SIS(%s)" % iface
         try:
             sim = EoN.fast_nonMarkov_SIS(G, return_full_data=True, **fk, **kw)
@@ -82,7 +87,7 @@ def run_all(scn, reflog, EoN):
         if sorted(tr[:len(I0)], key=lambda x: x[2]) + tr[len(I0):] != exp_tr:
             probs.append((name, "transmissions", "transmissions() = %r, reference %r" % (tr[:6], exp_tr[:6])))
     # arrays
-    tt, rt, jt = make_fxns(scn)
+    tt, rt, jt, js = make_fxns(scn)
     try:
         t, S, I = [list(map(float, a)) for a in EoN.fast_nonMarkov_SIS(G, trans_time_fxn=tt, rec_time_fxn=rt, **kw)]
         et = [tmin] + [e[0] for e in want]
